@@ -60,7 +60,7 @@ def make_class(sig, name='m', version=None, cache_object=None, ignore=(), falsy=
     if kwo:
         params += ', *, ' + ', '.join(p['name'] + f'={pyval(p["def"])!r}' for p in kwo)
     names = [p['name'] for p in sig]
-    ret = (f'_FALSY[({" + ".join("hash(str(" + n + "))" for n in names)}) % 5]' if falsy
+    ret = (f'_FALSY[({" + ".join("sum(map(ord, str(" + n + ")))" for n in names)}) % 5]' if falsy
            else f'{{"args": [{", ".join(names)}], "inv": self.n}}')
     src = (f'def {name}(self, {params}):\n    self.n += 1\n    self.calls.append(({", ".join(names)},))\n'
            f'    return {ret}\n')
